@@ -15,7 +15,7 @@ from ..compile import World
 from ..ctx import CTX, RunTooBig
 from ..history import History, canon, canon_outcome, digest
 from ..rng import Streams, chance, pick, weighted
-from ..sim import apply_op, build_sim, locations, readable, stack_state
+from ..sim import apply_op, form_of, build_sim, locations, readable, stack_state
 from ..world import gen_inputs, gen_request, gen_situation, gen_value, gen_world, wide_knob
 from . import Result
 from .c18 import make_env
@@ -235,7 +235,7 @@ def run(scn) -> Result:
                 else:
                     if a not in actors:
                         continue
-                    out = apply_op(actors[a], world, do)
+                    out = apply_op(actors[a], world, do, form=form_of(do, step))
                     ran = len(CTX.frames)
                     tout = apply_op(twins[a], world, do)
                     own[a].append(do)
